@@ -546,14 +546,42 @@ PREAMBLE = "From H2V Require Import Base.Tac Base.Bytes Model.Control.\nLocal Op
 PROFILES = ("control", "shutdown", "mixed", "chaos")
 
 
-def correspond_control(rep, tier, seed, profiles=PROFILES):
+CORPUS = os.path.join(common.VERIF, "corpus", "control")
+
+
+def corpus_scenarios():
+    """the committed replays of past findings: re-run on the current tree (they run first)"""
+    scs = []
+    if not os.path.isdir(CORPUS):
+        return scs
+    for fn in sorted(os.listdir(CORPUS)):
+        if not fn.endswith(".json"):
+            continue
+        rc, out = common.run_harness("conn", ["--replay", os.path.join(CORPUS, fn)], timeout=120)
+        for line in out.splitlines():
+            if line.startswith("{"):
+                try:
+                    o = json.loads(line)
+                except ValueError:
+                    continue
+                if "trace" in o:
+                    o["settled"] = False
+                    o["profile"] = "corpus:" + fn
+                    scs.append(o)
+    return scs
+
+
+def correspond_control(rep, tier, seed, profiles=PROFILES, extra=()):
     per = 50 if tier == "quick" else 1250
     steps = 90 if tier == "quick" else 130
     all_cases, all_scs, hist = [], [], {}
     proj_errors = []
     wire_bad = []
+    batches = [list(extra)]
     for pi, prof in enumerate(profiles):
         scs, _ = sendflow.gen_scenarios(seed * 4099 + pi, per, steps, prof)
+        batches.append(scs)
+    for scs in batches:
         for sc in scs:
             try:
                 case, counts, nl, wc = coq_case(sc)
